@@ -91,6 +91,110 @@ fn mixed_spec(rng: &mut Rng) -> GraphSpec {
     GraphSpec { files, extra_dirs: vec!["w/d".into()], bases: vec!["w".into()], fmt: Fmt::draw(rng), merge_imports: false }
 }
 
+/// root --use--> a, b (in this order); a uses m, changes m's variable and then @imports p, which also
+/// uses m; b uses m afterwards.  What the import does with m inside its own output is its business
+/// (outside C03's quantifier); but a and b reach m by @use alone and must see ONE instance.
+fn mixed_import_spec(rng: &mut Rng) -> GraphSpec {
+    let ld = |kind: LoadKind, url: &str, target: usize, ns: &str| Stmt::Load {
+        kind,
+        url: url.to_string(),
+        target,
+        wrap: Wrap::None,
+        ns: ns.to_string(),
+        with_cfg: false,
+        filter: 0,
+    };
+    let m_url = *rng.pick(&["m", "./m", "m.scss", "d/../m"]);
+    let value = 7 + rng.below(90) as u32;
+    let by_mixin = rng.chance(1, 2);
+    // files: 0 root, 1 a, 2 m, 3 b, 4 p
+    let root = vec![ld(LoadKind::Use, "a", 1, "na"), ld(LoadKind::Use, "b", 3, "nb"), Stmt::ModuleVars];
+    let mut a = vec![ld(LoadKind::Use, m_url, 2, "n0"), Stmt::ModuleVars];
+    let p_partial = rng.chance(1, 2);
+    let import = ld(LoadKind::Import, if p_partial { *rng.pick(&["p", "./p", "_p", "_p.scss"]) } else { *rng.pick(&["p", "./p", "p.scss"]) }, 4, "");
+    let assign = Stmt::Assign { ns: "n0".into(), target: 2, value, wrap: Wrap::None, by_mixin };
+    match rng.below(3) {
+        0 => {
+            a.push(assign);
+            a.push(import);
+        }
+        1 => {
+            a.push(import);
+            a.push(assign);
+        }
+        _ => {
+            a.push(assign);
+            a.push(import.clone());
+            a.push(import);
+        }
+    }
+    a.push(Stmt::Probe { ns: "n0".into(), target: 2, tag: 1 });
+    let m = vec![Stmt::ModuleVars];
+    let b = vec![ld(LoadKind::Use, *rng.pick(&["m", "./m", "m.scss"]), 2, "n0"), Stmt::ModuleVars, Stmt::Probe { ns: "n0".into(), target: 2, tag: 2 }];
+    let p = vec![ld(LoadKind::Use, *rng.pick(&["m", "m.scss"]), 2, "z"), Stmt::Probe { ns: "z".into(), target: 2, tag: 3 }];
+    let files = vec![
+        FileSpec { path: "w/root.scss".into(), stmts: root },
+        FileSpec { path: "w/a.scss".into(), stmts: a },
+        FileSpec { path: "w/m.scss".into(), stmts: m },
+        FileSpec { path: "w/b.scss".into(), stmts: b },
+        FileSpec { path: if p_partial { "w/_p.scss".into() } else { "w/p.scss".into() }, stmts: p },
+    ];
+    let _ = value;
+    GraphSpec { files, extra_dirs: vec!["w/d".into()], bases: vec!["w".into()], fmt: Fmt::draw(rng), merge_imports: false }
+}
+
+fn judge_mixed_import(case: &Case, stats: &mut Stats) -> (Judgement, Option<Outcome>) {
+    let spec = &case.spec;
+    let plan = FaultPlan::default();
+    let o = run_graph(spec, &plan, Chunking::NONE, 4000);
+    stats.compiled(&o);
+    stats.inc("probe:mixed_import_between_users");
+    let css = match &o.res {
+        Res::Ok(css) => css.clone(),
+        Res::Panic(m) => return (Judgement::fail("no_panic", "mixed_import=1".into(), format!("panic: {m}")), Some(o)),
+        Res::Err { class: ErrClass::Parse, .. } => return (Judgement::Unjudged("other_error"), Some(o)),
+        Res::Err { text, .. } => {
+            let first = text.lines().next().unwrap_or("").chars().take(50).collect::<String>();
+            return (
+                Judgement::fail("module_unusable", format!("mixed_import=1 error={}", first.replace(' ', "_")), format!("must compile: {}", o.res.short())),
+                Some(o),
+            );
+        }
+    };
+    let rules = parse_rules(&css);
+    let get = |sel: &str, k: &str| rules.get(sel).and_then(|v| v.first()).and_then(|p| p.get(k)).cloned();
+    let expect_v = spec.files[1].stmts.iter().find_map(|s| match s {
+        Stmt::Assign { value, .. } => Some(value.to_string()),
+        _ => None,
+    });
+    let (ida, idb) = (get("u1-1-t2", "id"), get("u3-2-t2", "id"));
+    let vb = get("u3-2-t2", "v");
+    if ida.is_none() || idb.is_none() {
+        return (Judgement::fail("P1_css_once", "mixed_import=1 user=1".into(), "a user's rule is missing from the output".into()), Some(o));
+    }
+    if ida != idb {
+        return (
+            Judgement::fail(
+                "P2_one_instance",
+                "mixed_import=1".into(),
+                format!("a.scss and b.scss both reach m.scss by @use alone but see different instances ({ida:?} vs {idb:?}); a.scss @imports a file that also uses m"),
+            ),
+            Some(o),
+        );
+    }
+    if vb != expect_v {
+        return (
+            Judgement::fail(
+                "P3_shared_variables",
+                "mixed_import=1 read_ns_star=0 read_ns_has_forward=0 assign_ns_has_forward=0".into(),
+                format!("b.scss reads $v2 = {vb:?} after a.scss assigned {expect_v:?} (a.scss also @imports a file that uses m)"),
+            ),
+            Some(o),
+        );
+    }
+    (Judgement::Pass, Some(o))
+}
+
 fn judge_mixed(case: &Case, stats: &mut Stats) -> (Judgement, Option<Outcome>) {
     let spec = &case.spec;
     let plan = FaultPlan::default();
@@ -394,7 +498,8 @@ fn alias_tokens(g: &GraphSpec, target: usize) -> String {
 
 pub fn judge(case: &Case, stats: &mut Stats) -> (Judgement, Option<Outcome>) {
     if case.mixed {
-        return judge_mixed(case, stats);
+        // the two hand-built families are told apart by their shape
+        return if case.spec.files.len() == 5 && case.spec.files[4].path.ends_with("p.scss") { judge_mixed_import(case, stats) } else { judge_mixed(case, stats) };
     }
     let spec = &case.spec;
     if reachable_cycle(spec) {
@@ -672,7 +777,7 @@ impl Prop for C03 {
             stats.inc("probe:exhaustive_small_graphs");
             exhaustive_c03_graph(n, code, index % 8, &mut rng)
         } else if mixed {
-            mixed_spec(&mut rng)
+            if index % 32 == 5 { mixed_import_spec(&mut rng) } else { mixed_spec(&mut rng) }
         } else {
             gen_graph(&p, &mut rng)
         };
@@ -763,7 +868,7 @@ impl Prop for C03 {
         if runs > 0 && judged * 10 < runs * 9 {
             errs.push(format!("only {judged} of {runs} runs were judged (<90%)"));
         }
-        for p in ["probe:module_loaded_from_several_places", "probe:id_compared", "probe:read_after_assignment", "probe:read_via_forward", "probe:mixed_loadcss_before_use", "probe:assigned_by_module_mixin", "probe:exhaustive_small_graphs"] {
+        for p in ["probe:module_loaded_from_several_places", "probe:id_compared", "probe:read_after_assignment", "probe:read_via_forward", "probe:mixed_loadcss_before_use", "probe:mixed_import_between_users", "probe:assigned_by_module_mixin", "probe:exhaustive_small_graphs"] {
             if runs >= 1000 && stats.c.get(p) == 0 {
                 errs.push(format!("probe {p} stuck at zero"));
             }
